@@ -97,6 +97,14 @@ def h_paint(c):
   before = c.snapshot(ns)
   kw = dict(onset_mode=mode, onset_delay_ms=delay,
             min_frame_occupancy_for_label=occ)
+  ow = c.params.get('onset_window')
+  if ow is not None:
+    kw['onset_window'] = ow
+  else:
+    ow = 1
+  maxv = c.params.get('max_velocity', 127)
+  if 'max_velocity' in c.params:
+    kw['max_velocity'] = maxv
   if mode == 'length_ms':
     kw['onset_length_ms'] = c.params.get('onset_len_ms', 30)
   roll = sl.sequence_to_pianoroll(ns, fps, lo, hi, **kw)
@@ -152,18 +160,19 @@ def h_paint(c):
                                                j > i)))
                  for j in range(N) if j != i]
         last = c.And(covering[i], c.Not(c.Or(later or [False])))
-        expv = c.If(last, n['v'] / 127, expv)
+        expv = c.If(last, n['v'] / maxv, expv)
       chk_v(c.approx(vel[f][p - lo], expv),
             'velocity scaled into (0,1] on active frames, 0 elsewhere')
-      chk_v(c.Implies(on, c.And(expv > 0, expv <= 1)), 'velocity in (0,1]')
+      if maxv >= 127:
+        chk_v(c.Implies(on, c.And(expv > 0, expv <= 1)), 'velocity in (0,1]')
       # onsets
       want = []
       for n in notes:
         os_, oe_ = n['s'] + delay / 1000., n['e'] + delay / 1000.
         if mode == 'window':
           sf, _ = frames(os_, oe_)
-          a = c.Max(0, sf - 1)
-          b = c.Min(T, sf + 2)
+          a = c.Max(0, sf - ow)
+          b = c.Min(T, sf + ow + 1)
         else:
           oe2 = c.Min(oe_, os_ + kw['onset_length_ms'] / 1000.)
           a, b = frames(os_, oe2)
@@ -477,6 +486,10 @@ def jobs(tier):
   add('h_paint', N=2, fps='16', frames=3, mode='window', budget=600)
   add('h_paint', N=1, fps='50', frames=5, mode='length_ms', onset_len_ms=30)
   add('h_paint', N=1, fps='31.25', frames=4, mode='window', delay_ms=20.0)
+  # non-default onset window sizes and velocity normalisation
+  add('h_paint', N=1, fps='16', frames=4, mode='window', onset_window=0)
+  add('h_paint', N=1, fps='16', frames=5, mode='window', onset_window=2,
+      max_velocity=200)
   # onset length longer than the note, with a delay
   add('h_paint', N=1, fps='32', frames=5, mode='length_ms', onset_len_ms=62.5,
       delay_ms=31.25, budget=600)
